@@ -241,7 +241,16 @@ def binding_section():
             'end_line': ex.end_line, 'instantiation': None, 'rules_fired': dict(rules.fired),
             'spec_substitutions': [{'pattern': 'format_eval_error body', 'replacement': 'contract stub (sets Errmsg)', 'fired': 1}],
             'signature_dropped': ''}
-    text = '#line %d "%s"\n%s\n' % (ex.line, '/repo/' + GSL, body)
+    # ghost: every GSL function with a status result (the *_e family, called directly or pasted by WRAP_CHECKED) reports a
+    # failure through vp_status, so "GSL could not compute the value => an error message is set" becomes an assertion
+    names = set(re.findall(r'\b(gsl_\w+_e)\s*\(', body)) | set(n + '_e' for n in re.findall(r'\bWRAP_CHECKED\(\s*(gsl_\w+)\s*,', body))
+    if len(names) < 40:
+        raise extract.ExtractionError('only %d GSL status functions found in the binding section' % len(names))
+    info['status_functions'] = len(names)
+    _status_names[:] = sorted(names)
+    macros = 'int g_gsl_failed;\nstatic int vp_status(int s) { if (s != 0) g_gsl_failed = 1; return s; }\n' + \
+             ''.join('#define %s(...) vp_status(%s(__VA_ARGS__))\n' % (n, n) for n in sorted(names))
+    text = '%s#line %d "%s"\n%s\n' % (macros, ex.line, '/repo/' + GSL, body)
     return text, info
 
 
@@ -271,7 +280,9 @@ void harness(void) {
   al.dig = nondet_bool() ? dig : (char *)0;
   al.funcinfo = "%s"; al.AE = &ae; al.TMI = 0; al.Errmsg = 0; al.f = 0; al.tva = 0; al.Private = 0;
   VP_RECORD_INPUTS
+  g_gsl_failed = 0;
   double r = ampl%s(&al);
+  if (g_gsl_failed) __CPROVER_assert(al.Errmsg != 0, "a GSL function reported a failure status (the value cannot be computed): an error message is set");
   if (al.Errmsg == 0) {
     __CPROVER_assert(r == r, "no error reported: the value is not NaN");
     if (al.derivs) for (int k = 0; k < %d; ++k) __CPROVER_assert(derivs[k] == derivs[k], "no error reported: requested first derivatives are not NaN");
@@ -283,12 +294,13 @@ void harness(void) {
     rec = 'double ' + ', '.join('vp_in_ra%d' % k for k in range(n)) + '; int vp_in_mode;\n#define VP_RECORD_INPUTS ' + \
           ' '.join('vp_in_ra%d = ra[%d];' % (k, k) for k in range(n)) + ' vp_in_mode = al.hes ? 2 : (al.derivs ? 1 : 0);\n'
     return Harness('C16.binding.' + name, 'C16', [BIND_PRE, rec, section, body], plain=True, replay=make_replay(name, n),
-                   inputs=['vp_in_mode'] + ['vp_in_ra%d' % k for k in range(n)], gen_bodies=LIBM_AND_GSL, ignore=IGNORE, timeout=300,
+                   inputs=['vp_in_mode'] + ['vp_in_ra%d' % k for k in range(n)], gen_bodies=LIBM_AND_GSL, ignore=IGNORE, timeout=900, backend='cadical',
                    stubs=['every gsl_* function (arbitrary behaviour)', 'AmplExports (Tempmem, SnprintF, VsnprintF)'],
                    note='arity %d from the registration table; helper loops unwind completely' % n)
 
 
 _drv = [None]
+_status_names = []
 
 
 def make_replay(name, n):
@@ -296,14 +308,18 @@ def make_replay(name, n):
         import os
         import subprocess
         from vp.run import BUILD, VERIF
-        if 'vp_in_ra0' not in inputs:
-            return False, 'no concrete arguments in the verifier trace', ''
         repo = os.environ.get('VP_REPO', '/repo')
         if _drv[0] is None:
             out = os.path.join(BUILD, 'replay', 'c16_replay')
             os.makedirs(os.path.dirname(out), exist_ok=True)
+            wrap = os.path.join(BUILD, 'replay', 'c16_status_wrap.h')
+            incs = re.findall(r'^#include <gsl/[\w.]+>', extract.read_repo(GSL), re.M)
+            with open(wrap, 'w') as f:
+                f.write('/* generated: GSL headers of amplgsl.cc first (include guards), then every *_e call reports its status */\n' + '\n'.join(incs) +
+                        '\n#ifdef __cplusplus\nextern "C"\n#endif\nint vp_status(int);\n' +
+                        ''.join('#define %s(...) vp_status(%s(__VA_ARGS__))\n' % (x, x) for x in _status_names))
             cmd = ['g++', '-std=c++17', '-g', '-w', '-fsanitize=address,undefined', '-fno-sanitize-recover=all', '-I', os.path.join(VERIF, 'shims', 'asl'),
-                   os.path.join(VERIF, 'replay', 'c16_replay.cc'), os.path.join(repo, 'src/gsl/amplgsl.cc'), '-lgsl', '-lgslcblas', '-lm', '-o', out]
+                   '-include', wrap, os.path.join(VERIF, 'replay', 'c16_replay.cc'), os.path.join(repo, 'src/gsl/amplgsl.cc'), '-lgsl', '-lgslcblas', '-lm', '-o', out]
             p = subprocess.run(cmd, capture_output=True, text=True)
             if p.returncode != 0:
                 return False, 'replay driver build failed: ' + p.stderr[-1500:], ' '.join(cmd)
@@ -319,10 +335,25 @@ def make_replay(name, n):
                 v = struct.unpack('>d', int(b, 2).to_bytes(8, 'big'))[0]
                 return 'nan' if v != v else repr(v).replace('inf', '1e999')
             return num(inputs.get('vp_in_ra%d' % k, '0'))
-        args = [_drv[0], name, str(inputs.get('vp_in_mode', '0'))] + [exact(k) for k in range(n)]
         env = dict(os.environ, ASAN_OPTIONS='detect_leaks=0')
-        p = subprocess.run(args, capture_output=True, text=True, env=env, timeout=120)
-        return p.returncode != 0, (p.stdout + p.stderr)[-2500:], 'ASAN_OPTIONS=detect_leaks=0 ' + ' '.join(args)
+        text = ''
+        pt = [exact(k) for k in range(n)] if 'vp_in_ra0' in inputs else []
+        if pt:
+            args = [_drv[0], name, str(inputs.get('vp_in_mode', '0'))] + pt
+            try:
+                p = subprocess.run(args, capture_output=True, text=True, env=env, timeout=60)
+                text = p.stdout + p.stderr
+                if p.returncode != 0:
+                    return True, text[-2500:], 'ASAN_OPTIONS=detect_leaks=0 ' + ' '.join(args)
+            except subprocess.TimeoutExpired:
+                text = 'the verifier\'s point did not finish natively within 60 s\n'
+        # GSL is arbitrary for the verifier, so its point rarely fails with the real GSL: probe grid over the arguments, all three request modes
+        args = [_drv[0], 'sweep', name, str(n)] + pt
+        try:
+            p = subprocess.run(args, capture_output=True, text=True, env=env, timeout=90)
+        except subprocess.TimeoutExpired:
+            return False, text + 'probe sweep did not finish within 90 s', ''
+        return p.returncode == 10, (text + p.stdout + p.stderr)[-2500:], 'ASAN_OPTIONS=detect_leaks=0 ' + ' '.join(args)
     return replay
 
 
@@ -331,14 +362,18 @@ def harnesses(tier, seed):
     text, info = binding_section()
     section = Section(text, info)
     tab = bindings_table()
-    if tier == 'quick':
-        # a fixed 10% sample chosen by the seed (the thorough tier runs all of them)
-        import random
-        rnd = random.Random(seed)
-        sample = rnd.sample(tab, max(1, len(tab) // 10))
-        first = [t for t in tab if t[0] in ('gsl_log1p', 'gsl_hypot', 'gsl_sf_bessel_Jn', 'gsl_sf_airy_zero_Ai', 'gsl_cdf_tdist_Pinv')]
-        names = []
-        tab = [t for t in first + sample if not (t[0] in names or names.append(t[0]))]
+    # both tiers check every registered binding (about 2 minutes on 16 cores with the cadical back end)
     for name, nargs, rnd_ in tab:
         hs.append(h_binding(name, nargs, section))
+    if tier == 'thorough':
+        # second back end (MiniSat) on a seed-chosen 10% sample of the bindings: guards against a back-end specific error
+        import random
+        rnd = random.Random(seed)
+        for name, nargs, rnd_ in rnd.sample(tab, max(1, len(tab) // 10)):
+            if name == 'gsl_sf_bessel_il_scaled':
+                continue        # ~280 s with MiniSat (40 s with cadical)
+            h = h_binding(name, nargs, section)
+            h.name += '.minisat'
+            h.backend = 'sat'
+            hs.append(h)
     return hs
